@@ -49,7 +49,7 @@ def in_segment_probe(ctx, prop: str, n: int, classes=None) -> None:
                           "Undulator", "Cavity"]
     for i in range(n):
         cls = classes[i % len(classes)]
-        p = E.gen_params(rng, cls)
+        p = LT.tame(E.gen_params(rng, cls))
         if cls == "Cavity":
             p["V"] = 0.0                      # (active cavities are not mergeable: C01's subject)
         thin = cls in THIN_OK and cls not in ("Drift", "Undulator") and rng.random() < 0.4
